@@ -3,13 +3,15 @@ import FV.Proofs.Disc
   C17 — Disc-overlap area is total, symmetric, bounded and accurate.
 
   Property theorems about the model `FV/Model/Disc.lean` of `circle_circle_intersection_area` (as repaired
-  by fixes/C17_acos_clamp.diff).
+  by fixes/C17_acos_clamp.diff and fixes/C17_underflow_scale.diff).
   * Over `ℝ` (`realFns`: `x ** 2`, `√`, `arccos`, `sin`, `π`, each failing exactly where Python raises):
     the guards are correct, the function never fails, is symmetric, bounded, and equals the standard
     closed form of the lens area.
-  * For *every* rounding behaviour (any linearly ordered carrier, arbitrary `+ - * /`, arbitrary library
-    functions): `acos` is only ever applied to a value in `[-1, 1]`, the only possible failure is a zero
-    divisor (underflow of `2 * r * d`), and the result lies in `[0, small]`.
+  * For *every* rounding / underflow / overflow behaviour (any linearly ordered carrier, arbitrary `+ - * /`,
+    arbitrary library functions): `acos` is only ever applied to a value in `[-1, 1]`, every divisor is
+    positive or tested against zero, so the function returns a value for all centres and positive radii, and
+    the result lies in `[0, small]`.  (NaN is outside a linear order; Python's `**` raising `OverflowError`
+    for radii above ~1e154, whose disc area is not a double, is outside the model: `sq` is total.)
   What is NOT proved here (no IEEE model): the `1e-5 · r²` accuracy in binary64 — decided by search in
   harness/props/c17.py against 60-digit arithmetic.
 -/
@@ -26,16 +28,20 @@ theorem dist_real (x1 y1 x2 y2 : ℝ) :
   unfold Disc.dist; simp only [realFns]
   rw [if_pos (by positivity)]; congr 2
 
-/-- the case split is correct: between the two tangencies both quotients handed to `acos` lie in
-    `[-1, 1]` (stated explicitly because Mathlib's `arccos` is total by clamping). -/
+/-- the case split is correct: between the two tangencies no divisor vanishes and both quotients handed to
+    `acos` — computed from the lengths relative to `s = max r1 r2` — are the cosines of the triangle with sides
+    `r1, r2, d` and lie in `[-1, 1]` (stated explicitly because Mathlib's `arccos` is total by clamping). -/
 theorem arg_in_range (r1 r2 d : ℝ) (h1 : 0 < r1) (h2 : 0 < r2) (hlo : |r1 - r2| < d) (hhi : d ≤ r1 + r2) :
-    quot realFns r1 r2 d = .ok (q r1 r2 d) ∧ quot realFns r2 r1 d = .ok (q r2 r1 d) ∧
+    quot realFns (r1 / max r1 r2) (r2 / max r1 r2) (d / max r1 r2) = .ok (q r1 r2 d) ∧
+    quot realFns (r2 / max r1 r2) (r1 / max r1 r2) (d / max r1 r2) = .ok (q r2 r1 d) ∧
     (-1 ≤ q r1 r2 d ∧ q r1 r2 d ≤ 1) ∧ (-1 ≤ q r2 r1 d ∧ q r2 r1 d ≤ 1) := by
   have hd : 0 < d := lt_of_le_of_lt (abs_nonneg _) hlo
   have hlo' : |r2 - r1| < d := by rwa [abs_sub_comm]
-  exact ⟨quot_eq r1 r2 d h1 hd, quot_eq r2 r1 d h2 hd,
-    ⟨neg_one_le_q r1 r2 d h1 h2 hlo, q_le_one r1 r2 d h1 h2 hlo hhi⟩,
+  have hs : 0 < max r1 r2 := lt_max_of_lt_left h1
+  refine ⟨?_, ?_, ⟨neg_one_le_q r1 r2 d h1 h2 hlo, q_le_one r1 r2 d h1 h2 hlo hhi⟩,
     ⟨neg_one_le_q r2 r1 d h2 h1 hlo', q_le_one r2 r1 d h2 h1 hlo' (by linarith)⟩⟩
+  · rw [quot_eq _ _ _ (div_pos h1 hs) (div_pos hd hs), q_scale _ _ _ _ hs]
+  · rw [quot_eq _ _ _ (div_pos h2 hs) (div_pos hd hs), q_scale _ _ _ _ hs]
 
 /-- far apart: no overlap. -/
 theorem far_apart (r1 r2 d : ℝ) (h : r1 + r2 < d) : areaD realFns r1 r2 d = .ok 0 := by
@@ -119,35 +125,89 @@ theorem clamp_in_range (x : α) (h : (negOne : α) ≤ one) : (negOne : α) ≤ 
   unfold clamp pyMax pyMin
   split <;> split <;> (constructor <;> order)
 
-/-- structural totality of the repaired code: if `acos` succeeds on `[-1, 1]` and the root succeeds on a sum
-    of two squares, the only error the function can produce is `ZeroDivisionError` (a divisor `2 * r * d`
-    that rounded to zero) — for arbitrary arithmetic, in particular for every rounding behaviour. -/
+theorem pyMax_pos (r1 r2 : α) (h1 : (zero : α) < r1) (h2 : (zero : α) < r2) : (zero : α) < pyMax r1 r2 := by
+  unfold pyMax; split <;> assumption
+
+theorem pyDiv_ok (a b : α) (hb : ¬ isZero b) : pyDiv a b = .ok (a / b) := by
+  unfold pyDiv; exact if_neg hb
+
+/-- **structural totality of the repaired code**: if `acos` succeeds on `[-1, 1]` and the root succeeds on a
+    sum of two squares, the function returns a value for all centres and positive radii — for arbitrary
+    arithmetic on a linearly ordered carrier, in particular for every rounding, underflow and overflow
+    behaviour: every divisor is either `max r1 r2 > 0` or has been tested against zero, and `acos` only
+    sees clamped values. -/
 theorem total_structural (F : Fns α) (h11 : (negOne : α) ≤ one)
     (hacos : ∀ x, (negOne : α) ≤ x → x ≤ one → ∃ v, F.acos x = .ok v)
     (hroot : ∀ x y, ∃ v, F.root (F.sq x + F.sq y) = .ok v)
-    (x1 y1 r1 x2 y2 r2 : α) (e : PyErr) (h : area F x1 y1 r1 x2 y2 r2 = .error e) : e = .zeroDivision := by
-  unfold area Disc.dist at h
+    (x1 y1 r1 x2 y2 r2 : α) (h1 : (zero : α) < r1) (h2 : (zero : α) < r2) :
+    ∃ a, area F x1 y1 r1 x2 y2 r2 = .ok a := by
+  unfold area Disc.dist
   obtain ⟨d, hd⟩ := hroot (x1 + -x2) (y1 + -y2)
-  rw [hd] at h; simp only [bind, Except.bind] at h
+  rw [hd]; simp only [bind, Except.bind]
+  unfold areaD
+  by_cases c1 : r1 + r2 < d
+  · rw [if_pos c1]; exact ⟨_, rfl⟩
+  rw [if_neg c1]; simp only
+  by_cases c2 : d ≤ pyAbs (r1 - r2)
+  · rw [if_pos c2]; exact ⟨_, rfl⟩
+  rw [if_neg c2]
+  have hs : ¬ isZero (pyMax r1 r2) := fun h => absurd (pyMax_pos r1 r2 h1 h2) (not_lt.mpr h.1)
+  simp only [pyDiv_ok _ _ hs, bind, Except.bind]
+  by_cases c3 : isZero (two * (r1 / pyMax r1 r2) * (d / pyMax r1 r2)) ∨ isZero (two * (r2 / pyMax r1 r2) * (d / pyMax r1 r2))
+  · rw [if_pos c3]; exact ⟨_, rfl⟩
+  rw [if_neg c3]
+  push Not at c3
+  unfold quot
+  rw [pyDiv_ok _ _ c3.1]; simp only
+  obtain ⟨al, ha⟩ := hacos _ (clamp_in_range ((F.sq (r1 / pyMax r1 r2) + F.sq (d / pyMax r1 r2) - F.sq (r2 / pyMax r1 r2)) /
+    (two * (r1 / pyMax r1 r2) * (d / pyMax r1 r2))) h11).1 (clamp_in_range _ h11).2
+  rw [ha]; simp only
+  rw [pyDiv_ok _ _ c3.2]; simp only
+  obtain ⟨be, hb⟩ := hacos _ (clamp_in_range ((F.sq (r2 / pyMax r1 r2) + F.sq (d / pyMax r1 r2) - F.sq (r1 / pyMax r1 r2)) /
+    (two * (r2 / pyMax r1 r2) * (d / pyMax r1 r2))) h11).1 (clamp_in_range _ h11).2
+  rw [hb]; exact ⟨_, rfl⟩
+
+/-- the values `areaD` can return: `0`, `small`, or a value clamped into `[0, small]`. -/
+theorem areaD_shape (F : Fns α) (r1 r2 d a : α) (h : areaD F r1 r2 d = .ok a) :
+    a = zero ∨ a = small F r1 r2 ∨ ∃ X, a = pyMin (small F r1 r2) (pyMax zero X) := by
   unfold areaD at h
   split at h
-  · cases h
+  · cases h; exact Or.inl rfl
   · simp only at h
     split at h
-    · cases h
+    · cases h; exact Or.inr (Or.inl rfl)
     · simp only [bind, Except.bind] at h
-      cases hq1 : quot F r1 r2 d with
-      | error e1 => rw [hq1] at h; cases h; exact pyDiv_error _ _ _ hq1
-      | ok q1 =>
-        rw [hq1] at h; simp only at h
-        obtain ⟨al, ha⟩ := hacos _ (clamp_in_range q1 h11).1 (clamp_in_range q1 h11).2
-        rw [ha] at h; simp only at h
-        cases hq2 : quot F r2 r1 d with
-        | error e2 => rw [hq2] at h; cases h; exact pyDiv_error _ _ _ hq2
-        | ok q2 =>
-          rw [hq2] at h; simp only at h
-          obtain ⟨be, hb⟩ := hacos _ (clamp_in_range q2 h11).1 (clamp_in_range q2 h11).2
-          rw [hb] at h; cases h
+      cases hq0 : pyDiv r1 (pyMax r1 r2) with
+      | error e => rw [hq0] at h; cases h
+      | ok a' =>
+        rw [hq0] at h; simp only at h
+        cases hq1 : pyDiv r2 (pyMax r1 r2) with
+        | error e => rw [hq1] at h; cases h
+        | ok b' =>
+          rw [hq1] at h; simp only at h
+          cases hq2 : pyDiv d (pyMax r1 r2) with
+          | error e => rw [hq2] at h; cases h
+          | ok e' =>
+            rw [hq2] at h; simp only at h
+            split at h
+            · cases h; exact Or.inr (Or.inl rfl)
+            · cases hq3 : quot F a' b' e' with
+              | error e => rw [hq3] at h; cases h
+              | ok q1 =>
+                rw [hq3] at h; simp only at h
+                cases ha : F.acos (clamp q1) with
+                | error e => rw [ha] at h; cases h
+                | ok al =>
+                  rw [ha] at h; simp only at h
+                  cases hq4 : quot F b' a' e' with
+                  | error e => rw [hq4] at h; cases h
+                  | ok q2 =>
+                    rw [hq4] at h; simp only at h
+                    cases hb : F.acos (clamp q2) with
+                    | error e => rw [hb] at h; cases h
+                    | ok be =>
+                      rw [hb] at h; cases h
+                      exact Or.inr (Or.inr ⟨_, rfl⟩)
 
 /-- … and whatever is returned lies between zero and the (rounded) area of the smaller disc. -/
 theorem bounds_structural (F : Fns α) (x1 y1 r1 x2 y2 r2 a : α)
@@ -158,31 +218,11 @@ theorem bounds_structural (F : Fns α) (x1 y1 r1 x2 y2 r2 a : α)
   | error e => rw [hd] at h; cases h
   | ok d =>
     rw [hd] at h; simp only [bind, Except.bind] at h
-    unfold areaD at h
-    split at h
-    · cases h; exact ⟨le_refl _, hs⟩
-    · simp only at h
-      split at h
-      · cases h; exact ⟨hs, le_refl _⟩
-      · simp only [bind, Except.bind] at h
-        cases hq1 : quot F r1 r2 d with
-        | error e => rw [hq1] at h; cases h
-        | ok q1 =>
-          rw [hq1] at h; simp only at h
-          cases ha : F.acos (clamp q1) with
-          | error e => rw [ha] at h; cases h
-          | ok al =>
-            rw [ha] at h; simp only at h
-            cases hq2 : quot F r2 r1 d with
-            | error e => rw [hq2] at h; cases h
-            | ok q2 =>
-              rw [hq2] at h; simp only at h
-              cases hb : F.acos (clamp q2) with
-              | error e => rw [hb] at h; cases h
-              | ok be =>
-                rw [hb] at h; cases h
-                unfold pyMin pyMax
-                split <;> split <;> (constructor <;> order)
+    rcases areaD_shape F r1 r2 d a h with rfl | rfl | ⟨X, rfl⟩
+    · exact ⟨le_refl _, hs⟩
+    · exact ⟨hs, le_refl _⟩
+    · unfold pyMin pyMax
+      split <;> split <;> (constructor <;> order)
 
 end Structural
 
